@@ -462,6 +462,9 @@ impl OsIpcSender {
         let name = CString::new(name).unwrap();
         unsafe {
             let fd = libc::socket(libc::AF_UNIX, SOCK_SEQPACKET | SOCK_FLAGS, 0);
+            if fd < 0 {
+                return Err(UnixError::last());
+            }
             let (sockaddr, len) = new_sockaddr_un(name.as_ptr());
             if libc::connect(
                 fd,
@@ -469,7 +472,10 @@ impl OsIpcSender {
                 len as socklen_t,
             ) < 0
             {
-                return Err(UnixError::last());
+                // Don't leak the socket. (Fetch the error first: `close` may change `errno`.)
+                let error = UnixError::last();
+                libc::close(fd);
+                return Err(error);
             }
 
             Ok(OsIpcSender::from_fd(fd))
